@@ -1905,6 +1905,9 @@ func (g *Gen) setMayFireIn(fr *Frame, li *loopInfo, s *AnchorSet) bool {
 			case *ssa.Call:
 				c := x.Common()
 				if c.IsInvoke() {
+					if (s.Call != "" && c.Method.Name() == s.Call) || (s.AfterCall != "" && c.Method.Name() == s.AfterCall) {
+						return true
+					}
 					continue
 				}
 				if _, isB := c.Value.(*ssa.Builtin); isB {
